@@ -5,7 +5,7 @@
    (tie + search; see cmul_rounding_bound below for the rounding-model statement, if present). *)
 From Coq Require Import List Arith Bool Ring_theory Field_theory QArith Qcanon Reals Lra Lia.
 From Flocq Require Import Core.
-From OV Require Import Base.Panic Base.Arith Model.Complex Inst.QcInst Inst.FloatInst Proofs.Complex Proofs.ComplexQc Proofs.ComplexFloat Proofs.ComplexField Proofs.ComplexRound.
+From OV Require Import Base.Panic Base.Arith Model.Complex Inst.QcInst Inst.FloatInst Proofs.Complex Proofs.ComplexQc Proofs.ComplexFloat Proofs.ComplexField Proofs.ComplexRound Proofs.ComplexR.
 
 (* ---- Complex F is the commutative ring F[i] ---- *)
 Theorem complex_ring : forall A : Arith,
@@ -243,6 +243,32 @@ Proof. intros z w. exact (cmp_total_lemma AQ_order z w). Qed.
 Check cmp_total_Qc : forall z w : cplx AQ,
   exactly_one (cltb z w = true) (z = w) (cltb w z = true).
 Print Assumptions cmp_total_Qc.
+
+(* ---- corollaries at C = R x R (classical reals): the field of complex numbers, its lexicographic order,
+   and the modulus |z| = sqrt(abs_sqr z) of Complex::<f64>::abs over R ---- *)
+Theorem complex_R_field :
+  field_theory (@czero AR) cone cadd cmul csub cneg (cdivt AR_FieldLaws) (cinv AR_FieldLaws) eq /\
+  (forall z w : cplx AR, exactly_one (cltb z w = true) (z = w) (cltb w z = true)) /\
+  MagLaws ACR.
+Proof. split; [exact complex_R_field_lemma|]. split; [exact (cmp_total_lemma AR_order) | exact ACR_MagLaws]. Qed.
+Check complex_R_field :
+  field_theory (@czero AR) cone cadd cmul csub cneg (cdivt AR_FieldLaws) (cinv AR_FieldLaws) eq /\
+  (forall z w : cplx AR, exactly_one (cltb z w = true) (z = w) (cltb w z = true)) /\
+  MagLaws ACR.
+Print Assumptions complex_R_field.
+Print Assumptions cplx_ext. (* closed; ends the axiom list above for the audit's output parser *)
+
+Theorem cabs_laws : forall z w : cplx AR,
+  (@cabs SAR z * @cabs SAR z = abs_sqr z)%R /\ (@cabs SAR (cmul z w) = @cabs SAR z * @cabs SAR w)%R /\
+  (@cabs SAR z = 0%R <-> z = czero).
+Proof.
+  intros z w. split; [exact (cabs_sqr_lemma z)|]. split; [exact (cabs_mul_lemma z w)|]. exact (cabs_zero_iff_lemma z).
+Qed.
+Check cabs_laws : forall z w : cplx AR,
+  (@cabs SAR z * @cabs SAR z = abs_sqr z)%R /\ (@cabs SAR (cmul z w) = @cabs SAR z * @cabs SAR w)%R /\
+  (@cabs SAR z = 0%R <-> z = czero).
+Print Assumptions cabs_laws.
+Print Assumptions cplx_ext. (* closed; ends the axiom list above for the audit's output parser *)
 
 (* ---- P3: the "few ulps" half, for the float instance of the model itself ----
    For finite z, w : Complex<f64> (cplx AF, Coq's primitive binary64 = the arithmetic of the float tier) whose four
